@@ -7,7 +7,7 @@ from harness import core, acegen
 from harness.core import Case, coq_bool, outcome
 from harness.kernels import aclshadow as K
 
-LEVEL = "translation_validation"
+LEVEL = "proof"
 MODEL_TARGETS = K.TARGETS
 RULE = ("ACLs of 2..9 items drawn with repetition from an alphabet of 3..8 related ACEs (a random ACE and mutations "
         "of it: exact duplicates, supersets, subsets, other actions, address groups with members) interleaved with "
